@@ -38,6 +38,8 @@ for sid in "$@"; do
   fi
   for id in $ids; do
     out="$(VERIF_NO_EVIDENCE=1 "$ISO/verif/check" "$id" --tier "${MUT_TIER:-quick}" 2>&1)"; rc=$?
+    # a check that gave up on hung workers must not leave them spinning
+    pkill -9 -f "$ISO/verif/target-" >/dev/null 2>&1 || true
     nv=$(printf '%s\n' "$out" | grep -c '^VIOLATION')
     if [ $rc -eq 1 ]; then
       fired="$fired $id"
